@@ -10,10 +10,18 @@
    This file shows that every routine of the library (Model/SimpleOps.v,
    Model/Builder.v) preserves [HInv]; that the only step of a build that can
    break it is user code rewriting its target while a "built" entry for the
-   target exists ([write_keeps_HInv] states the exact side condition); and
-   which entries a query, a replay, a nested build can add (relations [hx],
-   [xrel]).  HashMemoRun.v combines these into the theorem about [run];
-   HashMemoEx.v has the counterexample for programs outside its hypothesis. *)
+   target exists ([write_keeps_HInv], [write_breaks_HashOk]: the exact side
+   condition); and — sections 6 to 8, which rely on the repair of D15 (the
+   replay tests "the path is claimed" before it compares the file) — that no
+   routine makes a memo entry for a path that is claimed and in progress, except
+   build_file itself for its own target at the moment it finishes it:
+   [m_query_strict], [is_op_cached_sg], [are_subs_cached_strict] (relation
+   [hx true]), and [run_P] (relation [prel]: user code and everything it calls
+   leaves the memo's view of a path claimed further up the call stack unchanged).
+   HashMemoRun.v combines these into the theorem about [run], for every
+   program; HashMemoEx.v documents the defect and has the regression examples.
+   (Sections 5's [xrel] / [run_X] are the weaker facts that were available
+   before the repair; they are kept, nothing depends on the old order.) *)
 From Coq Require Import List String Ascii NArith ZArith Bool Arith Lia.
 From FB.Base Require Import PyVal Fs.
 From FB.Gen Require Import JsonUtilGen.
